@@ -29,8 +29,8 @@ UnaryOK(e) ==
     IN /\ ~u.pan
        /\ u.plen = p.len                                              \* prefix_len
        /\ u.mask = Net(p) \o Zeros(tw - p.len)                        \* mask(): network part, zeroed host part
-       /\ (e.hosts = 1 => u.repr = p.bits)                            \* repr(): as stored
-       /\ (e.hosts = 0 => u.repr = Net(p) \o Zeros(tw - p.len))
+       /\ Len(u.repr) = tw /\ SubSeq(u.repr, 1, p.len) = Net(p)      \* repr(): the network part is the prefix's (the
+                                                                      \* property leaves its host part open)
        /\ u.bitset = {i \in 0..255 : BitAt(AsPfx(p), i)}            \* is_bit_set(i) for i in 0..=255
        /\ u.zero.len = 0                                              \* zero()
        /\ u.frl.len = p.len /\ Net(u.frl) = Net(p)                    \* from_repr_len(repr, len)
